@@ -222,7 +222,7 @@ func runC19(c *eng.Ctx) {
 				h := mc.Fn.(*ssa.Function)
 				okRun = p.MustPass(h, func(p *eng.Prog, in ssa.Instruction) bool {
 					cl, ok := in.(*ssa.Call)
-					return ok && (cl.Common().StaticCallee() == execFn || strings.HasSuffix(p.Desc(cl.Common().Value), "execFn"))
+					return ok && (cl.Common().StaticCallee() == execFn || cellHoldsOnly(cl.Common().Value, execFn))
 				}, 0)
 			} else if strings.HasSuffix(p.Desc(ta[0]), p.FuncKey(execFn)) {
 				okRun = true
@@ -970,4 +970,35 @@ func taskErrorLatched(c *eng.Ctx) {
 		}
 	}
 	c.Check(n >= 3, "error-stores-found", nil, nil, "the response handlers and Complete record errors in baseTaskContext.err", fmt.Sprintf("%d stores", n))
+}
+
+// cellHoldsOnly: v reads a local variable (directly or as a captured variable of a function literal) every assignment of
+// which stores the function literal fn.
+func cellHoldsOnly(v ssa.Value, fn *ssa.Function) bool {
+	u, ok := eng.Unwrap(v).(*ssa.UnOp)
+	if !ok || u.Op != token.MUL {
+		return false
+	}
+	cell := u.X
+	for hop := 0; hop < 3; hop++ {
+		fv, isFV := cell.(*ssa.FreeVar)
+		if !isFV {
+			break
+		}
+		cell = eng.FreeVarBinding(fv)
+	}
+	al, ok := cell.(*ssa.Alloc)
+	if !ok || al.Referrers() == nil {
+		return false
+	}
+	n := 0
+	for _, r := range *al.Referrers() {
+		if st, ok := r.(*ssa.Store); ok && st.Addr == ssa.Value(al) {
+			n++
+			if eng.FuncOfValue(st.Val) != fn {
+				return false
+			}
+		}
+	}
+	return n > 0
 }
